@@ -8,7 +8,9 @@ ID = "C03"
 TITLE = "Clock domains, resets and control inserters behave as specified"
 RULE = ("case = (generated program with 1..3 clock domains (pos/neg edge, sync/async reset, reset-less domains), reset-less "
         "registers, registers whose bits are split between domains and modules, FSMs, module trees with every nesting (<= 3 per "
-        "node, stacked along the tree) of ResetInserter / EnableInserter / DomainRenamer; scheduler order; explicit step list over "
+        "node, stacked along the tree) of ResetInserter / EnableInserter / DomainRenamer; in programs without renamers up to two "
+        "modules define a domain of their own under an outer domain's name (own clock / reset lines, own edge and reset kind), and "
+        "modules read ClockSignal / ResetSignal of those names; scheduler order; explicit step list over "
         "{input writes, inserted-control writes, clock level changes of any subset of domains in one instant, reset line changes "
         "incl. pulses with no clock running}). Non-trivial = a driven signal changed and a fault kind fired; distinct = distinct "
         "SHA-256 of the observation trace.")
@@ -24,8 +26,8 @@ COMPONENTS = {"real": ["amaranth.hdl._cd.ClockDomain", "amaranth.hdl._xfrm (Rese
               "stub": ["PermSet scheduler seam", "clock/reset driver", "reference interpreter (dsim/refint.py)"]}
 EXPECTED_PROBES = ("sched", "coincide", "inactive", "srst", "arst", "gate", "reset_inserter", "enable_inserter", "domain_renamer",
                    "async_domain", "negedge_domain", "reset_less_signal", "edge_under_reset", "submodules", "obs_changes",
-                   "clock_signal_read", "reset_signal_read")
-OPTS = {"max_domains": 3, "max_modules": 4, "wrappers": True, "prints": False, "fsm": True, "max_stmts": 6, "depth": 1, "clock_reads": True}
+                   "clock_signal_read", "reset_signal_read", "shadowing_domain")
+OPTS = {"max_domains": 3, "max_modules": 4, "wrappers": True, "prints": False, "fsm": True, "max_stmts": 6, "depth": 1, "clock_reads": True, "shadows": True}
 
 
 def gen_case(seed, tier):
